@@ -15,7 +15,7 @@ Definition hist_ok_core (P : hist_params) : bool :=
   addsub_ok (hp_as P) && div_ok (hp_div P) && bits_ok (hp_bits P) &&
   mul_ok (hp_mul P) && pow_ok (hp_pow P) && gcd_ok (hp_gcd P) && roots_ok (hp_roots P) && radix_ok (hp_radix P).
 Definition hist_ok (P : hist_params) : bool :=
-  hist_ok_core P && iter_ok (hp_iter P) && serde_ok (hp_serde P).
+  hist_ok_core P && iter_ok (hp_iter P) && serde_ok (hp_serde P) && bytes_ok (hp_bytes P).
 
 (** What the operations that MULTIPLY (`*=`, pow, cbrt, nth_root, lcm) and the text of values of
     64 digits and more rest on: the two statements of property C02 (area `mul`, not yet proved
@@ -71,7 +71,7 @@ Qed.
 
 (** the conditions of the areas whose parameters were added later (iter, ...) *)
 Lemma hist_ok_inv2 P : hist_ok P = true ->
-  iter_ok (hp_iter P) = true /\ serde_ok (hp_serde P) = true.
+  iter_ok (hp_iter P) = true /\ serde_ok (hp_serde P) = true /\ bytes_ok (hp_bytes P) = true.
 Proof. unfold hist_ok. rewrite !andb_true_iff. tauto. Qed.
 
 (** ** consequences of the two multiplication statements *)
@@ -374,16 +374,16 @@ Proof.
   - unfold biguint_from_vec. rewrite enc_strip by auto. reflexivity.
   - rewrite unew_spec by auto. reflexivity.
   - rewrite ufrom_slice_spec by auto. reflexivity.
-  - rewrite ufrom_bytes_le_spec by auto. reflexivity.
-  - rewrite ufrom_bytes_be_spec by auto. reflexivity.
+  - rewrite ufrom_bytes_le_spec by (auto; apply (hist_ok_inv2 P HP)). reflexivity.
+  - rewrite ufrom_bytes_be_spec by (auto; apply (hist_ok_inv2 P HP)). reflexivity.
   - rewrite de_biguint_tokens_spec by apply (hist_ok_inv2 P HP). unfold spec_de. rewrite words_is_word by auto. reflexivity.
   - unfold biguint_from_vec. rewrite from_biguint_ienc by (apply canon_strip; auto). rewrite val_strip. reflexivity.
   - rewrite inew_spec by auto. reflexivity.
   - rewrite ifrom_slice_spec by auto. reflexivity.
-  - rewrite ifrom_bytes_le_spec by auto. reflexivity.
-  - rewrite ifrom_bytes_be_spec by auto. reflexivity.
-  - rewrite from_signed_bytes_le_spec by auto. reflexivity.
-  - rewrite from_signed_bytes_be_spec by auto. reflexivity.
+  - rewrite ifrom_bytes_le_spec by (auto; apply (hist_ok_inv2 P HP)). reflexivity.
+  - rewrite ifrom_bytes_be_spec by (auto; apply (hist_ok_inv2 P HP)). reflexivity.
+  - rewrite from_signed_bytes_le_spec by (auto; apply (hist_ok_inv2 P HP)). reflexivity.
+  - rewrite from_signed_bytes_be_spec by (auto; apply (hist_ok_inv2 P HP)). reflexivity.
   - rewrite de_bigint_spec by apply (hist_ok_inv2 P HP). unfold spec_ide, spec_de. rewrite ser_sign_ok, words_is_word by auto.
     cbn [option_map of_opt bind]. reflexivity.
   - unfold biguint_from_vec. rewrite ifrom_u_spec by (apply canon_strip; auto). rewrite val_strip. reflexivity.
@@ -776,8 +776,8 @@ Section Exports.
         try (exfalso; intuition discriminate).
       + apply uto_u32_digits_spec; auto. apply (hist_ok_inv2 P HP).
       + rewrite uto_u64_digits_spec by auto. reflexivity.
-      + apply uto_bytes_le_spec; auto.
-      + apply uto_bytes_be_spec; auto.
+      + apply uto_bytes_le_spec; auto; apply (hist_ok_inv2 P HP).
+      + apply uto_bytes_be_spec; auto; apply (hist_ok_inv2 P HP).
       + rewrite ubits_spec by auto. reflexivity.
       + rewrite ucount_ones_spec by auto. reflexivity.
       + rewrite utrailing_zeros_spec by auto. reflexivity.
@@ -786,10 +786,10 @@ Section Exports.
         try (exfalso; intuition discriminate).
       + rewrite ito_u32_digits_spec by (auto; apply (hist_ok_inv2 P HP)). reflexivity.
       + rewrite ito_u64_digits_spec by auto. reflexivity.
-      + rewrite ito_bytes_le_spec by auto. reflexivity.
-      + rewrite ito_bytes_be_spec by auto. reflexivity.
-      + apply to_signed_bytes_le_spec; auto.
-      + apply to_signed_bytes_be_spec; auto.
+      + rewrite ito_bytes_le_spec by (auto; apply (hist_ok_inv2 P HP)). reflexivity.
+      + rewrite ito_bytes_be_spec by (auto; apply (hist_ok_inv2 P HP)). reflexivity.
+      + apply to_signed_bytes_le_spec; auto; apply (hist_ok_inv2 P HP).
+      + apply to_signed_bytes_be_spec; auto; apply (hist_ok_inv2 P HP).
       + rewrite ibits_spec by auto. reflexivity.
       + rewrite itrailing_zeros_spec by auto. reflexivity.
       + apply inst_ito_str_radix; auto. apply (text_ok_small_or_umul (OI x)). auto.
